@@ -412,6 +412,25 @@ func runEvolution(r *evid.Run, dir string, cs int64) {
 			}
 			e.stats["repeated-or-stale-notifications"]++
 		default: // restart, chain evolves while stopped
+			// sometimes the wallet still sees the top blocks detached, is stopped, and
+			// the best chain ends up on those very blocks again (plus whatever happens
+			// next): leftovers of what it rolled back now match the backend
+			returned := 0
+			if rg.Intn(5) == 0 {
+				tip := int(ch.Height())
+				maxd := tip - int(e.first) - 1
+				if maxd > 3 {
+					maxd = 3
+				}
+				if maxd >= 1 {
+					returned = 1 + rg.Intn(maxd)
+					for hh := tip; hh > tip-returned; hh-- {
+						ch.Send(ch.DisconnectedAt(hh))
+					}
+					ch.Barrier()
+					e.stats["detached-blocks-returning-while-stopped"]++
+				}
+			}
 			h.Stop()
 			var what string
 			switch rg.Intn(4) {
@@ -540,6 +559,9 @@ func runEvolution(r *evid.Run, dir string, cs int64) {
 				<-afterRescanDone // the notifications behind RescanFinished have all been delivered
 				afterRescanDone = nil
 			}
+			if returned > 0 {
+				what = fmt.Sprintf("the top %d blocks, detached just before the stop, attached again; ", returned) + what
+			}
 			after = "restart; while stopped: " + what
 			e.stats["restarts"]++
 		}
@@ -570,6 +592,7 @@ func main() {
 	r.Require("reorgs-affecting-wallet-txs", 20)
 	r.Require("restarts", 50)
 	r.Require("offline-reorgs", 10)
+	r.Require("detached-blocks-returning-while-stopped", 5)
 	r.Require("blocks-during-rescan", 5)
 	os.Exit(r.Finish())
 }
